@@ -166,7 +166,7 @@ func runSelection(t *testing.T, tape *kernel.Tape) *kernel.Result {
 	}
 	nh := tape.Choose(3, "nhdr")
 	for i := 0; i < nh; i++ {
-		name := []string{"X-Rate-Limit", "x-lower", "Etag", "X-Multi"}[tape.Choose(4, "hname")]
+		name := []string{"X-Rate-Limit", "x-lower", "Etag", "X-Multi", "Set-Cookie", "Www-Authenticate"}[tape.Choose(6, "hname")]
 		nv := 1 + tape.Choose(2, "hnv")
 		for j := 0; j < nv; j++ {
 			hdrs.Add(name, fmt.Sprintf("v%d-%d", i, j))
@@ -340,6 +340,24 @@ func runSelection(t *testing.T, tape *kernel.Tape) *kernel.Result {
 		return res
 	}
 	env.Log("caller", "Submit err=%v reader=%v consumer=%v", err, readerRan, gotCons)
+	if err == nil && readerRan && !opClient && cutKind == 0 && tape.Bool(4, "same-operation-value-on-a-second-runtime") {
+		// fail-over / fan-out: the caller hands the very same operation value to another Runtime; nothing of the first may stick to it
+		env.Fault("same-operation-value-on-a-second-runtime")
+		rt2 := client.New("second.sim.local", "/", []string{"http"})
+		rt2.Transport = mkTransport("second-runtime")
+		rt2.Consumers = rt.Consumers
+		rt2.DefaultMediaType = rt.DefaultMediaType
+		first := fmt.Sprint(gotHdr["X-Served-By"])
+		savedCtx := seenCtx
+		_, err2 := rt2.Submit(op)
+		seenCtx = savedCtx
+		if err2 != nil {
+			env.Violate("C13/precedence", "client:operation-value-reused", "the operation value went through one Runtime (served by %s); submitted to a second Runtime it failed: %v", first, err2)
+		} else if fmt.Sprint(gotHdr["X-Served-By"]) != "[second-runtime]" {
+			env.Violate("C13/precedence", "client:operation-value-reused", "the operation value went through one Runtime; submitted to a second Runtime it was served by %v", gotHdr["X-Served-By"])
+		}
+		gotHdr["X-Served-By"] = []string{strings.Trim(first, "[]")}
+	}
 	if kept != nil && (kept.Code() != keptCode || kept.GetHeader("X-Token") != keptToken) {
 		env.Violate("C13/response-altered", "kept-response-of-an-earlier-call", "the response of an earlier call, still held by its caller, read %d / %q when it was received and reads %d / %q after a later call", keptCode, keptToken, kept.Code(), kept.GetHeader("X-Token"))
 	}
